@@ -10,6 +10,7 @@ call; second evaluation identical; no carry-over between calls (ordered pairs).
 import datetime as D
 import io
 import itertools
+import os
 import time
 import warnings
 
@@ -153,9 +154,11 @@ def eval_leak(i):
     a = S[i]
     viols = []
     n = 0
-    for kwa in (OPTS[0], OPTS[2], OPTS[3]):
+    tzA = {'tzinfos': {'EST': 'EST5EDT', 'GMT': 'GMT+3', 'UTC': 7200, 'BRST': 'BRST3'}}
+    tzB = {'tzinfos': {'EST': 'EST-8', 'GMT': -3600, 'UTC': 'UTC-5', 'BRST': -7200}}
+    for kwa in (OPTS[0], OPTS[2], OPTS[3], tzA):
         for b in S:
-            for kwb in (OPTS[0], OPTS[1]):
+            for kwb in (OPTS[0], OPTS[1]) + ((tzB,) if any(n in b for n in ('EST', 'GMT', 'UTC', 'BRST')) else ()):
                 n += 1
                 alone = outcome(b, kwb)
                 outcome(a, kwa)
@@ -168,6 +171,60 @@ def eval_leak(i):
     return Res(trans=n, viols=viols)
 
 
+# ---- whole-process call-order differential: the same multiset of calls in different orders, each order in a fresh
+# interpreter; any call whose outcome depends on the order reveals state kept between calls (first-wins and
+# last-wins memo tables alike), which a within-process "alone vs after" comparison cannot see once the state exists
+def order_calls():
+    tzA = {'tzinfos': {'EST': 'EST5EDT', 'GMT': 'GMT+3', 'UTC': 7200, 'BRST': 'BRST3'}}
+    tzB = {'tzinfos': {'EST': 'EST-8', 'GMT': -3600, 'UTC': 'UTC-5', 'BRST': -7200}}
+    calls = []
+    for s_ in leak_set():
+        for kw in (OPTS[0], OPTS[1], OPTS[3], tzA, tzB):
+            calls.append((s_, kw))
+    return calls
+
+
+def run_order(which):
+    """executed in a fresh interpreter: -> list of repr(outcome) in canonical call index order"""
+    warnings.simplefilter('ignore')
+    calls = order_calls()
+    idx = list(range(len(calls)))
+    if which == 1:
+        idx.reverse()
+    elif which == 2:
+        idx = idx[1::2] + idx[0::2]
+    elif which == 3:
+        idx = sorted(idx, key=lambda i: (i * 7919) % len(idx))
+    out = [None] * len(calls)
+    for i in idx:
+        out[i] = repr(outcome(*calls[i]))
+    return out
+
+
+def eval_order(_):
+    import json
+    import subprocess
+    import sys
+    runs = []
+    for which in range(4):
+        code = ("import sys, json; sys.path.insert(0, %r); from props import c14; "
+                "print(json.dumps(c14.run_order(%d)))" % (os.path.dirname(os.path.dirname(os.path.abspath(__file__))), which))
+        r = subprocess.run([sys.executable, '-c', code], capture_output=True, text=True, timeout=600)
+        if r.returncode != 0:
+            return Res(viols=[{'kind': 'harness-exception', 'error': 'order run %d failed: %s' % (which, r.stderr[-300:])}])
+        runs.append(json.loads(r.stdout.strip().splitlines()[-1]))
+    calls = order_calls()
+    viols = []
+    for i, c in enumerate(calls):
+        vals = set(r[i] for r in runs)
+        if len(vals) > 1:
+            viols.append({'kind': 'outcome-depends-on-call-order', 'text': c[0], 'options': {k: (v if not isinstance(v, dict) else sorted(v)) for k, v in c[1].items()},
+                          'outcomes': sorted(vals)[:3]})
+            if len(viols) >= 3:
+                break
+    return Res(trans=len(calls) * 4, viols=viols, sample={'calls': len(calls), 'orders': 4})
+
+
 def signature(case, detail):
     return {'kind': detail.get('kind'), 'exception': detail.get('exception')}
 
@@ -175,6 +232,8 @@ def signature(case, detail):
 def replay(part, case):
     if part.startswith('sequences'):
         return eval_prefix((tuple(case[0]), case[1])).viols
+    if part == 'call-order-global':
+        return eval_order(case).viols
     if part == 'input-types':
         return eval_types(case).viols
     return eval_leak(case).viols
@@ -192,6 +251,7 @@ def run(ctx):
     ctx.explore('sequences-depth-%d' % depth, cases, 'eval_prefix', chunk=16 if depth == 3 else 64)
     ctx.explore('input-types', list(range(7)), 'eval_types', chunk=1)
     ctx.explore('call-order', list(range(len(leak_set()))), 'eval_leak', chunk=4)
+    ctx.explore('call-order-global', [0], 'eval_order', serial=True)
     ctx.coverage_extra.update({
         'bounds': {'token_alphabet': len(TOK), 'depth': depth, 'option_sets': len(OPTS), 'leak_set': len(leak_set()),
                    'cpu_cap_s': CPU_CAP},
